@@ -13,6 +13,11 @@ theorem sigInv_init (nq ng max : Nat) : SigInv (initState nq ng max) := by
     split at hl <;> simp at hl
     subst hl; simp at hm
 
+theorem sigInv_initP (ps : List Bool) (ng max : Nat) : SigInv (initStateP ps ng max) := by
+  refine ⟨?_, ?_⟩
+  · intro a j q hr hs; simp [initStateP, initState, State.jobSig] at hs
+  · intro q l j hl hm; rw [qjobs_initP hl] at hm; cases hm
+
 theorem sigInv_setChild {s : State} (h : SigInv s) (p : Nat) (c : Option Nat) :
     SigInv (match s.acts[p]? with | some pv => s.setAct p { pv with child := c } | none => s) := by
   split
@@ -104,6 +109,7 @@ theorem sigInv_ret {s s' : State} {a r : Nat} (h : SigInv s) (hs : retStep s a =
 theorem sigInv_reachable {s : State} (hr : Reachable s) : SigInv s := by
   induction hr with
   | init nq ng max => exact sigInv_init nq ng max
+  | initP ps ng max => exact sigInv_initP ps ng max
   | step l hprev hstep ih =>
     have hh := holderInv_reachable hprev
     obtain ⟨hw, hf⟩ := fullInv_reachable hprev
